@@ -35,8 +35,16 @@ Names == /\ Is("names")
 
 RoundTrip == Is("json") /\ Ev.same /\ Step
 
+\* the tool's date defaults; "today" may have changed while the tool ran (before / after)
+CliDates == /\ Is("clidates") /\ Ev.exit = 0 /\ Ev.contiguous
+            /\ \E today \in {Ev.before, Ev.after} :
+                  LET rng == CliRange(Ev.mode, Ev.d, today) IN
+                  /\ Ev.count = CliCount(rng)
+                  /\ Ev.count > 0 => Ev.first = rng[1] /\ Ev.last = rng[2]
+            /\ Step
+
 TraceInit == l = Start
-TraceNext == MethodCall \/ ClockText \/ CoordText \/ Names \/ RoundTrip
+TraceNext == MethodCall \/ ClockText \/ CoordText \/ Names \/ RoundTrip \/ CliDates
 TraceSpec == TraceInit /\ [][TraceNext]_l
 TraceAccepted ==
     LET d == TLCGet("stats").diameter IN
